@@ -9,7 +9,7 @@ git -C /repo worktree add -q --detach $wt HEAD || exit 1
 out=/tmp/verif-out-sweep-$seed
 for p in $props; do
   t0=$(date +%s)
-  o=$(cd /verif && VERIF_SEED=$seed VERIF_REPO=$wt VERIF_OUT=$out ./check $p 2>&1); rc=$?
+  o=$(cd /verif && VERIF_SEED=$seed VERIF_REPO=$wt VERIF_OUT=$out ./check $p --tier ${TIER:-quick} 2>&1); rc=$?
   t1=$(date +%s)
   echo "seed=$seed $p exit=$rc violations=$(echo "$o" | grep -c '^VIOLATION') wall=$((t1-t0))s"
   if [ $rc -ne 0 ]; then echo "$o" | grep -E '^(VIOLATION|# )' | head -4; mkdir -p /tmp/sweep-replays/$seed; cp $out/replays/$p-* /tmp/sweep-replays/$seed/ 2>/dev/null; fi
